@@ -73,9 +73,9 @@ func runC13(c *Ctx, r *Rec) {
 	storage := c.fieldOfIface(stk, "collection", "ListLike")
 	var capF *types.Var
 	if st != nil {
-		for i := 0; i < st.NumFields(); i++ {
-			if b, ok := st.Field(i).Type().Underlying().(*types.Basic); ok && b.Info()&types.IsInteger != 0 {
-				capF = st.Field(i)
+		for _, f := range flatFields(stk) {
+			if b, ok := f.Type().Underlying().(*types.Basic); ok && b.Info()&types.IsInteger != 0 {
+				capF = f
 			}
 		}
 	}
@@ -387,6 +387,42 @@ func runC13(c *Ctx, r *Rec) {
 		inspectNoLit(fd.Body, func(x ast.Node) bool {
 			if rx, mname, call, ok := methodCall(x); ok && selectorField(info, rx) == storage && listMutators[mname] {
 				construct := c.fdName(fd) + "/" + mname
+				if !ast.IsExported(name) {
+					// a private worker: judged by the public operations that reach it
+					cg := c.sameTypeCallGraph(stk)
+					var gates []string
+					for _, pub := range sortedKeys(ms) {
+						if !ast.IsExported(pub) {
+							continue
+						}
+						seen := map[string]bool{pub: true}
+						for work := []string{pub}; len(work) > 0; {
+							cur := work[0]
+							work = work[1:]
+							for callee := range cg[cur] {
+								if !seen[callee] && !ast.IsExported(callee) {
+									seen[callee] = true
+									work = append(work, callee)
+								}
+							}
+						}
+						if seen[name] {
+							gates = append(gates, pub)
+						}
+					}
+					bad := ""
+					for _, gname := range gates {
+						if allowed[gname] != mname {
+							bad = fmt.Sprintf("%s reaches %s, which mutates the storage through %s: only AddValue->InsertValue, RemoveTop->RemoveValue and RemoveAll->RemoveAll may", gname, name, mname)
+						}
+					}
+					if len(gates) == 0 {
+						r.skip("D4-single-gate", construct, c.pos(call.Pos()), "a private method that no public operation of the stack reaches through methods of the stack")
+					} else {
+						r.check(bad == "", "D4-single-gate", construct, c.pos(call.Pos()), "the private worker of the gate method and its storage mutator", bad)
+					}
+					return true
+				}
 				r.check(allowed[name] == mname, "D4-single-gate", construct, c.pos(call.Pos()),
 					"the gate method and its storage mutator", fmt.Sprintf("%s mutates the storage through %s: only AddValue->InsertValue, RemoveTop->RemoveValue and RemoveAll->RemoveAll may", name, mname))
 			}
